@@ -702,6 +702,11 @@ func checkTable(d *dhcpd.VerifC10Dump, now time.Time, site string) (vs []viol) {
 				found = true
 			}
 		}
+		for _, o := range recs {
+			if o.ID != l.ID && o.IP == l.IP {
+				found = true // two records on one address: reported above
+			}
+		}
 		if !found {
 			add("index:missing-ip-entry", "lease [%s] is not what the IP index holds for %s", leaseStr(l, now), l.IP)
 		}
@@ -859,6 +864,9 @@ func (e *engine) exec(hist []op) (er execResult) {
 		r := in.apply(o)
 		now := vtime.Now()
 		er.step.Outcome = o.Kind + ":" + r.label()
+		if (o.Kind == "sadd" || o.Kind == "supd" || o.Kind == "srm") && r.Err != "" {
+			site += "-rejected"
+		}
 		if r.NA {
 			return er // not applicable: do not extend
 		}
@@ -874,6 +882,9 @@ func (e *engine) exec(hist []op) (er execResult) {
 		fail(checkTable(&after, now, site)...)
 		// Replies.
 		granted := r.YIAddr.IsValid() && (r.Type == "offer" || r.Type == "ack")
+		if granted {
+			e.c.Count("grants_checked", 1)
+		}
 		switch o.Kind {
 		case "disc":
 			if granted {
@@ -893,11 +904,18 @@ func (e *engine) exec(hist []op) (er execResult) {
 		m.update(o, r, now)
 		// Database on disk.
 		recs, raw, rerr := readDB(in.srv.DBPath())
-		if rerr != nil {
+		restartDiffers := o.Kind == "restart" && !eqStrs(memRecs(&before), memRecs(&after))
+		if restartDiffers {
+			// Reported below; file != memory is then the same fact.
+		} else if rerr != nil {
 			fail(viol{"db:unreadable:" + site, fmt.Sprintf("leases.json cannot be read back: %v\nfile: %s", rerr, raw)})
 		} else if dl, derr := diskRecs(recs); derr != nil {
 			fail(viol{"db:unreadable:" + site, fmt.Sprintf("leases.json holds a bad record: %v\nfile: %s", derr, raw)})
-		} else if ml := memRecs(&after); !eqStrs(dl, ml) {
+		} else if ml := memRecs(&after); eqStrs(dl, ml) {
+			if len(ml) > 0 {
+				e.c.Count("db_equal_nonempty", 1)
+			}
+		} else {
 			fail(viol{"db:differs-from-memory:" + site, fmt.Sprintf(
 				"after the operation leases.json does not list exactly the leases in memory (first = memory, second = file):\n  %s\ntable: %s\nfile: %s",
 				diffStr(ml, dl), dumpStr(&after, now), raw)})
@@ -905,9 +923,13 @@ func (e *engine) exec(hist []op) (er execResult) {
 		// Restart restores the table and the answers.
 		if o.Kind == "restart" {
 			bl, al := memRecs(&before), memRecs(&after)
+			if len(bl) > 0 {
+				e.c.Count("restarts_with_leases_compared", 1)
+			}
 			if !eqStrs(bl, al) {
-				// Classify: the only change is a generated hostname on leases that
-				// were offered but never acknowledged (empty hostname).
+				// Classify: the only change is a generated hostname on dynamic
+				// leases whose hostname was empty (offered but never acknowledged,
+				// or emptied by a reservation taking the name).
 				var norm []string
 				for _, x := range before.Leases {
 					h := x.Host
@@ -919,7 +941,7 @@ func (e *engine) exec(hist []op) (er execResult) {
 				sort.Strings(norm)
 				key := "restart:table-differs"
 				if eqStrs(norm, al) {
-					key = "restart:unacknowledged-lease-gets-hostname"
+					key = "restart:empty-hostname-regenerated"
 				}
 				fail(viol{key, fmt.Sprintf("the lease table after restart differs from the one before (first = before, second = after):\n  %s\nbefore: %s\nafter:  %s",
 					diffStr(bl, al), dumpStr(&before, now), dumpStr(&after, now))})
@@ -945,6 +967,11 @@ func (e *engine) exec(hist []op) (er execResult) {
 		pd := in.srv.Dump()
 		free, ok := m.freeAddr(now)
 		offered := pr.Type == "offer" && pr.YIAddr.IsValid()
+		if ok {
+			e.c.Count("probe_expect_offer", 1)
+		} else {
+			e.c.Count("probe_expect_no_offer_pool_exhausted", 1)
+		}
 		if ok && !offered {
 			fail(viol{"discover:no-offer-though-address-free:" + psite, fmt.Sprintf(
 				"after the history a DISCOVER from new client %s was answered with %q although pool address %s is neither leased nor reserved\nreference: %s\ntable before the DISCOVER: %s",
@@ -991,22 +1018,8 @@ func run(c *lib.Ctx) {
 	}
 	c.Note("alphabet", fmt.Sprintf("%d operations; subnet %s gateway %s pool %s-%s (3 addresses) lease 1h; depth bound %d", len(ops), subnet, gateway, poolStart, poolEnd, depth))
 	e := &engine{c: c}
-	reported := map[uint64]bool{}
-	b := &lib.BFS[op]{C: c, Ops: ops, MaxDepth: depth, Workers: 1, Confirm: true,
-		Exec: func(hist []op) lib.Step {
-			er := e.exec(hist)
-			// Every failed check of the step is a finding of its own; the first
-			// is reported (after confirmation) by the BFS, the rest here.
-			for _, v := range er.viols[min(1, len(er.viols)):] {
-				h := lib.Hash(v.Key + "|" + histString(hist))
-				if !reported[h] {
-					reported[h] = true
-					c.Violation(v.Key, v.Desc, hist)
-				}
-			}
-			return er.step
-		}}
-	b.Run()
+	x := &explorer{c: c, ops: ops, exec: e.exec, maxDepth: depth}
+	x.run()
 }
 
 func replay(c *lib.Ctx, raw json.RawMessage) string {
@@ -1046,6 +1059,12 @@ func main() {
 				"distinct_nontrivial":           m.Distinct["nontrivial"],
 				"distinct_outcomes":             m.Distinct["outcomes"],
 				"max_depth":                     m.Maxes["max_depth"],
+				"offers_and_acks_checked":       m.Counters["grants_checked"],
+				"probes_expecting_offer":        m.Counters["probe_expect_offer"],
+				"probes_with_pool_exhausted":    m.Counters["probe_expect_no_offer_pool_exhausted"],
+				"restarts_with_leases_compared": m.Counters["restarts_with_leases_compared"],
+				"db_equal_memory_nonempty":      m.Counters["db_equal_nonempty"],
+				"violating_transitions":         m.Counters["violating_transitions"],
 				"rule": "BFS over histories of DISCOVER / REQUEST (selecting, init-reboot, renew) / DECLINE / RELEASE from 3 (thorough 4) clients, static add/update/remove inside and outside a 3-address pool, +2h clock steps and restarts, every history executed on the real dhcpd.Create -> v4Server.handle / AddStaticLease / ... / onNotify -> dbStore / dbLoad in a fresh directory under the virtual clock. State = dump of lease list (in order), both indexes, pool bitset, leases.json and the reference model, expiry times relative to the clock. After every transition: table invariants (one record per address and per client, dynamic in pool, none on the gateway, list = hostname index = IP index = bitset), every OFFER/ACK checked against the reference (reservation honoured, address not acknowledged-unexpired or reserved for another client, ACKed lease present), leases.json = memory each once, restart leaves table and HostByIP/IPByHost/MACByIP/Leases answers unchanged, and a DISCOVER from a never-seen client gets an OFFER iff the reference has a free pool address. non-trivial = transition that changes the state key",
 			}
 		},
